@@ -46,7 +46,10 @@ class TiledStridedLayoutAttr(MemRefLayoutAttr, Data[TiledStridedLayout]):
         if self.data.is_dynamic():
             raise NotImplementedError("Dynamic case is not implemented yet!")
 
-        result = AffineConstantExpr(0)
+        if self.data.offset is None:
+            raise NotImplementedError("Dynamic case is not implemented yet!")
+        # every address is relative to the offset of the layout
+        result = AffineConstantExpr(self.data.offset)
         for dim in range(self.data.dimension()):
             max_depth = self.data.tstrides[dim].depth()
             for depth in range(max_depth):
